@@ -14,8 +14,13 @@ let engine = "c12"
 let rule = "files: written by the real writer (none/snappy/zlib/lz4/zstd, several blocks, block lengths covering every residue mod 8). Damage, per block i in {every data block, index block}: a flip in the first / last payload byte, in each of the four checksum bytes, bursts of 2..32 bits at random positions inside payload+checksum, 1-3 random flips. Observations: mtbl_verify exit status; a verify_checksums reader running (a) full iteration (b) get of a key in block i (c) iterator on block 0 then seek into block i (d) get_prefix / get_range reaching block i; the number of entries it returned before stopping. Non-trivial: every damaged case; distinct by (file, damage)."
 
 let verify_bin () = Filename.concat (try Sys.getenv "VERIF_BUILD" with Not_found -> "/verif/build") "bin/mtbl_verify"
+(* the environment override of the reader's madvise option (MTBL_READER_MADVISE_RANDOM: not set, "0", "1", other)
+   must have no bearing on checksum verification; it rotates with the case index *)
+let env_mode = ref 0
+let env_value () = match !env_mode mod 4 with 1 -> Some "0" | 2 -> Some "1" | 3 -> Some "yes" | _ -> None
 let run_verify path : int =
-  let cmd = Printf.sprintf "%s %s >/dev/null 2>&1" (Filename.quote (verify_bin ())) (Filename.quote path) in
+  let cmd = Printf.sprintf "%s%s %s >/dev/null 2>&1" (match env_value () with Some v -> "MTBL_READER_MADVISE_RANDOM=" ^ v ^ " " | None -> "")
+      (Filename.quote (verify_bin ())) (Filename.quote path) in
   match Unix.system cmd with Unix.WEXITED c -> c | Unix.WSIGNALED s -> 1000 + abs s | Unix.WSTOPPED _ -> 2000
 
 (* a verifying reader in a child; returns (how it ended, entries returned) *)
@@ -25,6 +30,7 @@ let rop_json = function
   | RPrefix k -> JL [ JS "get_prefix"; jbytes k ] | RRange (a, b) -> JL [ JS "get_range"; jbytes a; jbytes b ]
 let run_reader path (op : rop) : string * (string * string) list =
   match in_child (fun () ->
+      (match env_value () with Some v -> Unix.putenv "MTBL_READER_MADVISE_RANDOM" v | None -> ());
       let r = Rd.c_reader_init path true false in
       if r = 0n then "NULL" else begin
         let src = Rd.c_reader_source r in
@@ -75,6 +81,7 @@ let run ~tier ~seed ~only acc =
        let table_json () = JO [ "cfg", cfg_json c; "entries", JI (List.length es); "file_len", JI (String.length file) ] in
        (* intact: verify OK, verifying reader reads everything *)
        if want () then begin
+         env_mode := ti;
          record acc ~key:(Digest.string file) ~nontrivial:true ~klass:"intact" (lazy (table_json ()));
          let v = run_verify path in
          if v <> 0 then fail acc ~kind:"spec_violation" ~what:"[C12] mtbl_verify does not accept an intact file from the writer" (table_json ());
@@ -114,9 +121,12 @@ let run ~tier ~seed ~only acc =
                   ("random 1-3 flips", List.sort_uniq compare (List.init k (fun _ -> lo_bit + rint st nbits)))) in
             List.iter (fun (dname, bits) ->
               if want () then begin
+                env_mode := !idx;
+                bump acc (Printf.sprintf "madvise_env=%s" (match env_value () with Some v -> v | None -> "unset"));
                 let bad = List.fold_left flip_bit file bits in
                 let case = lazy (JO [ "table", table_json (); "block", (if i = nb then JS "index" else JI i); "block_offset", JI off;
-                                      "block_framed_size", JI sz; "damage", JS dname; "flipped_bits", JL (List.map (fun b -> JI b) bits) ]) in
+                                      "block_framed_size", JI sz; "damage", JS dname; "flipped_bits", JL (List.map (fun b -> JI b) bits);
+                                      "MTBL_READER_MADVISE_RANDOM", (match env_value () with Some v -> JS v | None -> JNull) ]) in
                 record acc ~key:(Digest.string bad) ~nontrivial:true ~klass:("damage:" ^ (if i = nb then "index" else if i = nb - 1 then "last_data" else "data")) case;
                 bump acc (Printf.sprintf "stored_len_mod8=%d" ((sz - hl - 4) mod 8));
                 Rd.write_file cpath bad;
